@@ -400,10 +400,10 @@ def roundtrip_bn(spec, fmt, io, n_jobs=1, strict_order=False, multi_parent_stric
 
 
 # ----------------------------------------------------------------------------- main round-trip groups
-def _gen_format(fmt, per_dag, pool, modes, uai_safe=False):
+def _gen_format(fmt, per_dag, pool, modes, uai_safe=False, per_dag_thorough=None):
     def gen(tier, seed):
         rng = O.mk_rng(seed, "c09", fmt)
-        for names, edges, cards, k in base_params(tier, seed, fmt, per_dag if tier == "quick" else max(2, per_dag // 2), pool):
+        for names, edges, cards, k in base_params(tier, seed, fmt, per_dag if tier == "quick" else (per_dag_thorough or per_dag), pool):
             if uai_safe:
                 for v in single_value_tables(edges, cards):
                     cards[v] = 4                      # tables with exactly one entry: group uai_single_value
@@ -1057,11 +1057,11 @@ def groups(tier):
         Group("writer_text", gen_writer_text, check_writer_text, nontrivial, engine="E3",
               bound=f"writer text parsed by independent mini parsers (XMLBIF child-fastest, NET parents-slowest, BIF rows): {sizes} x 3-4 card vectors, plain+tiny entries"),
         Group("xmlbif", _gen_format("xmlbif", 12, all_names, ["plain", "tiny"]), check_roundtrip, nontrivial, seed_fanout=2, engine="E3",
-              bound=f"XMLBIF string/file/save-load: {sizes} x 12 (thorough 6; 4 nodes 2) variants; all adversarial names; plain and tiny (1e-12, 1e-5, 0.999999) entries; exact (1e-12); {common}"),
+              bound=f"XMLBIF string/file/save-load: {sizes} x 12 (4 nodes: 4) variants; all adversarial names; plain and tiny (1e-12, 1e-5, 0.999999) entries; exact (1e-12); {common}"),
         Group("net", _gen_format("net", 12, all_names, ["plain", "tiny"]), check_roundtrip, nontrivial, seed_fanout=2, engine="E3",
-              bound=f"NET string/file: {sizes} x 12 variants; all adversarial names; plain and tiny entries; tolerance 5e-5; {common}"),
-        Group("uai_bn", _gen_format("uai", 12, all_names, ["plain"], uai_safe=True), check_roundtrip_uai_main, nontrivial, seed_fanout=8, engine="E3",
-              bound=f"UAI BAYES string/file/save-load under 8 hash seeds: {sizes} x 12 variants; positional names var_i by (card, name); no entry that prints with an exponent "
+              bound=f"NET string/file: {sizes} x 12 (4 nodes: 4) variants; all adversarial names; plain and tiny entries; tolerance 5e-5; {common}"),
+        Group("uai_bn", _gen_format("uai", 12, all_names, ["plain"], uai_safe=True, per_dag_thorough=6), check_roundtrip_uai_main, nontrivial, seed_fanout=8, engine="E3",
+              bound=f"UAI BAYES string (all) + file/save-load (1/4) under 8 hash seeds: {sizes} x 12 (thorough 6; 4 nodes 2) variants; positional names var_i by (card, name); no entry that prints with an exponent "
                     "(group uai_exponent), no one-entry table (a root of cardinality 1 is given cardinality 4; group uai_single_value); CPDs with >= 2 parents: scope set, "
                     f"cardinalities and the flat value sequence are checked, the parent ORDER only in group uai_bn_multiparent; {common}"),
         Group("uai_bn_multiparent", gen_uai_multiparent, check_roundtrip, nontrivial, seed_fanout=8, engine="E3",
@@ -1081,7 +1081,7 @@ def groups(tier):
         Group("purity", gen_purity, check_purity, lambda c: True, engine="E3",
               bound="3 models x 4 writers (BIF 1) + 1 Markov network: deep snapshot incl. ORDER of model.cpds after constructor, str() and write_*; str() twice"),
         Group("bif", _gen_format("bif", 2, bif_pool, ["plain", "tiny", "plain"]), check_roundtrip, nontrivial, engine="E3",
-              bound=f"BIF string (all), save/load (1/3) and write_bif/path (1/10), n_jobs=1: {sizes} x 2 variants (BIFReader costs ~2 s per call); names from the pool without "
+              bound=f"BIF string (all), save/load (1/3) and write_bif/path (1/10), n_jobs=1: {sizes} x 2 (4 nodes: 1) variants (BIFReader costs ~2 s per call); names from the pool without "
                     f"the substrings 'variable'/'probability' (those: group bif_names); plain and tiny entries; exact (1e-12); {common}"),
         Group("bif_names", gen_bif_names, check_bif_names, nontrivial, engine="E3",
               bound="BIF: every name of the adversarial list + 8 more as the middle variable of a 3-chain and as child of a collider; keyword-like state names; "
